@@ -103,10 +103,13 @@ def make_inputs(rng, n, meta):
     # reverse-flow flags for the gas post-processing twins (own generator: the draws above stay what they were)
     bp[:, ib.FROM_NODE_T_SWITCHED] = (np.random.default_rng(977 + n).random(n) < 0.35).astype(float)
     named["net"] = None
+    named["fluid"] = type("_F", (_FakeFluid,), {"is_gas": bool((meta.get("fold") or {}).get("is_gas", True))})
     return bp, npit, named
 
 
 Z_COEF = (0.97, -2.5e-3, 1.5e-4)     # stand-in compressibility  Z(p, T) = c0 + c1 p + c2 T
+RHO_COEF = (1100.0, 0.0, -0.4)       # stand-in density          rho(T) = c0 + c2 T
+FN_COEF = {"Z": Z_COEF, "Rho": RHO_COEF}
 
 
 class _FakeProp:
@@ -121,6 +124,10 @@ class _FakeFluid:
     @staticmethod
     def get_compressibility(p, t=None):
         return Z_COEF[0] + Z_COEF[1] * p + Z_COEF[2] * (t if t is not None else 0.0)
+
+    @staticmethod
+    def get_density(t):
+        return RHO_COEF[0] + RHO_COEF[2] * t
 
 
 def call_python(meta, bp, npit, named):
@@ -179,8 +186,8 @@ def check_kernel(driver, rng, meta, n):
             key = nm if nm in named else nm + "_"
             v = named[key]
             vals.append(float(v[i]) if isinstance(v, np.ndarray) else float(v))
-        for _ in meta.get("fn_params", []):
-            vals.extend(Z_COEF)
+        for fnm in meta.get("fn_params", []):
+            vals.extend(FN_COEF[fnm])
         lines.append("kernel %s %s" % (meta["lean_name"], " ".join(f2hex(v) for v in vals)))
     out = driver.run(lines)
     tol = ULP_NB if "numba" in meta["pyfile"] or meta["pyfunc"].endswith("numba") else ULP_NP
